@@ -9,11 +9,11 @@ HOOKS = {
 }
 
 ENGINES_DOC = [
-    {"name": "spec", "path": "spec/", "serves_properties": ["C02", "C03", "C05", "C06", "C10", "C11", "C12", "C13", "C14", "C15", "C16"],
+    {"name": "spec", "path": "spec/", "serves_properties": ["C01", "C02", "C03", "C04", "C05", "C06", "C10", "C11", "C12", "C13", "C14", "C15", "C16"],
      "kind_free_text": "TLA+ modules (single source of truth) checked with TLC"},
-    {"name": "harness", "path": "harness/", "serves_properties": ["C02", "C03", "C05", "C06", "C10", "C11", "C12", "C13", "C14", "C15", "C16"],
+    {"name": "harness", "path": "harness/", "serves_properties": ["C01", "C02", "C03", "C04", "C05", "C06", "C10", "C11", "C12", "C13", "C14", "C15", "C16"],
      "kind_free_text": "Rust conformance harness: replays TLC-generated behaviours on the real code, records traces/rows for TLC to judge"},
-    {"name": "orchestrator", "path": "bin/check", "serves_properties": ["C02", "C03", "C05", "C06", "C10", "C11", "C12", "C13", "C14", "C15", "C16"],
+    {"name": "orchestrator", "path": "bin/check", "serves_properties": ["C01", "C02", "C03", "C04", "C05", "C06", "C10", "C11", "C12", "C13", "C14", "C15", "C16"],
      "kind_free_text": "python3 driver: build, TLC, replay/validation, evidence, exit code"},
 ]
 
@@ -110,8 +110,26 @@ CHECKS.update({
     },
 })
 
+_LEX_TECH = "TLA+ specification of the 488.2 lexical grammar (ScpiLex) with three-valued verdicts; TLC enumerates and classifies byte strings, replayed on Tokenizer / Node::run"
+CHECKS.update({
+    "C01": {
+        "engine": "spec", "category": "model_checking",
+        "text": "Every byte string generated for C04 by TLC (bounded-exhaustive over one representative byte per lexical class incl. NUL/0xFF/TAB/NL and chunks; every single-byte corruption and truncation of ~60 grammar-derived messages incl. channel/numeric lists) is tokenized, executed with Node::run on a permissive tree with a pull-everything handler, and every data token is put through 31 typed conversions and both list iterators to their first error, under catch_unwind with a hang watchdog; the specification is total on all of them (TLC evaluates Decompose on every string) and the implementation must return normally without the internal parser error.",
+        "design_ref": "DESIGN.md 3 C01",
+        "note": "Monitors: panic (incl. arithmetic overflow in the debug-assertions build), non-termination (step bounds + 20 s watchdog), -300 'Internal parser error'. Memory unsafety that neither panics nor changes a value is invisible. Messages from the C02/C05/C06/C10/C11 enumerations are also executed under catch_unwind by those checks.",
+        "technique": _LEX_TECH + " under a totality monitor",
+    },
+    "C04": {
+        "engine": "spec",
+        "text": "ScpiLex.tla decomposes a byte string by the 488.2 section 7 grammar and classifies it W (well-formed, with THE element sequence and exact payload ranges), M(kind) (one of the listed malformations) or U (unspecified). TLC generates every concatenation of <= 3-5 symbols over class representatives in four contexts plus every single-point corruption/truncation of ~60 base messages; for W the real token stream (kinds, separators, payload byte ranges recovered from slice pointers, non-decimal values) must equal the decomposition and the message must not be rejected lexically; for M Node::run must fail with a command error.",
+        "design_ref": "DESIGN.md 3 C04",
+        "note": "U inputs (listed in the evidence assumptions) are checked for totality only, so a doubtful reading of the standard cannot raise an alarm. ScpiLex is cross-checked against ScpiExec's rendering by the C06/C10 enumerations (their messages must execute as specified).",
+        "technique": _LEX_TECH,
+    },
+})
+
 NOT_APPLICABLE = [
     {"property_id": p, "reason": "check under construction in this round (see DESIGN.md 6, construction order); not yet claimed"}
-    for p in ["C01", "C04", "C07", "C08", "C09",
+    for p in ["C07", "C08", "C09",
               "C17", "C18", "C19", "C20"]
 ]
